@@ -35,7 +35,7 @@ def run(ctx):
                 ctx.analysed_fns.add(fid)
             nl += got
     ctx.instance("R-LINEAR.task.sites", nl)
-    ctx.floor("R-LINEAR.task.sites", 7)
+    ctx.floor("R-LINEAR.task.sites", 4)
     linear.refusing_sinks(ctx, fx, "src/concurrency/work_stealing.rs", TASK)
     ctx.floor("R-SINK.calls", 1)
     order.sequence_order(ctx, fx, ["src/concurrency/pipeline.rs", "src/concurrency/fiber_pool.rs", "src/concurrency/mod.rs",
